@@ -193,7 +193,9 @@ class QuadCell(CellBase):
     def normal(self):
         points = self.points
 
-        return np.cross(points[1] - points[0], points[3] - points[0])
+        # cross product of the diagonals: the same for every numbering of the quad
+        # (the triangle at a single corner has no area if that corner is a straight one)
+        return np.cross(points[2] - points[0], points[3] - points[1])
 
     def get_side_normals(self, i):
         side_points = self.get_side_points(i)
